@@ -704,26 +704,39 @@ func TestC20_SharedConfig(t *testing.T) {
 				runOne(k + j)
 			}
 		}
-		var start, done sync.WaitGroup
+		var start, done, conns sync.WaitGroup
 		start.Add(1)
 		for i := 0; i < k; i++ {
 			done.Add(1)
-			go func(i int) { defer done.Done(); start.Wait(); runOne(i) }(i)
+			conns.Add(1)
+			go func(i int) { defer done.Done(); defer conns.Done(); start.Wait(); runOne(i) }(i)
 		}
 		if rotations > 0 {
 			done.Add(1)
+			connsDone := waitCh(&conns)
 			go func() {
 				defer done.Done()
 				start.Wait()
-				for j := 0; j < rotations; j++ {
-					// half of the cases keep every earlier key (the list grows), the others rotate the usual way:
-					// [new, previous], a list of constant length
-					keys = append([][32]byte{{2, byte(cn), byte(j)}}, keys...)
+				// rotate for as long as the connections are in flight (at least `rotations` times)
+				for j := 0; ; j++ {
+					// half of the cases keep every earlier key (the list grows, capped at 12), the others rotate the
+					// usual way: [new, previous], a list of constant length
+					keys = append([][32]byte{{2, byte(cn), byte(j), byte(j >> 8)}}, keys...)
 					if cn%2 == 0 && len(keys) > 2 {
 						keys = keys[:2]
 					}
+					if len(keys) > 12 {
+						keys = keys[:12]
+					}
 					sc.SetSessionTicketKeys(keys)
 					runtime.Gosched()
+					if j >= rotations {
+						select {
+						case <-connsDone:
+							return
+						default:
+						}
+					}
 				}
 			}()
 		}
